@@ -169,7 +169,7 @@ class OpsMixin:
             return self.bound[name]
         if name in fr.env:
             return fr.env[name]
-        if self.spec_mode:
+        if self.spec_mode or (fr.contract is not None and fr.contract.kind == 'lemma'):
             if name in self.eng.specs:
                 return self.eng.specs[name]
             if name in self.eng.lemmas:
